@@ -100,7 +100,9 @@ def run_link(item, tl, mutate=None):
     link, enc, m = build_link(item, e_sym=lambda: holder["e"], d_sym=lambda: holder["d"])
     if mutate:
         mutate(link)
-    k, n = enc.code_dimension, enc.code_length
+    nb = int(item.get("blocks", 1))          # code blocks sent in one row
+    k1, n1 = enc.code_dimension, enc.code_length
+    k, n = nb * k1, nb * n1
     t, _ = capability(enc) if item["channel"] == "flips" else (0, "")
     if item["channel"] == "flips" and (t is None or t < 1):
         return []
@@ -116,7 +118,8 @@ def run_link(item, tl, mutate=None):
         return dict(msg=msg, out=out)
     assume = []
     if item["channel"] == "flips":
-        assume.append(z3.AtMost(*[z3.Bool(f"e{i}") for i in range(n)], t))
+        for b in range(nb):
+            assume.append(z3.AtMost(*[z3.Bool(f"e{i}") for i in range(b * n1, (b + 1) * n1)], t))
     if item["channel"] == "displace":
         lim = item["dlim"]
         for i in range(nsym):
@@ -158,7 +161,8 @@ def replay_link(item, w):
     with _disable_current_modes():
         holder = {}
         link, enc, m = build_link(item, e_sym=lambda: holder["e"], d_sym=lambda: holder["d"])
-        k, n = enc.code_dimension, enc.code_length
+        nb = int(item.get("blocks", 1))
+        k, n = nb * enc.code_dimension, nb * enc.code_length
         if w is None:
             g = torch.Generator().manual_seed(0)
             for _ in range(20):
@@ -209,7 +213,7 @@ def all_items():
 
     def add(code, decoder, modem, channel, **kw):
         it = dict(code=code, decoder=decoder, modem=modem, channel=channel, **kw)
-        it["config"] = f"{code}+{decoder} | {modem} | {channel}" + (f" noise_var={kw['noise_var']}" if "noise_var" in kw else "")
+        it["config"] = f"{code}+{decoder} | {modem} | {channel}" + (f" noise_var={kw['noise_var']}" if "noise_var" in kw else "") + (f" {kw['blocks']} blocks per row" if "blocks" in kw else "")
         items.append(it)
     hard_modems8 = ["BPSK", "QPSK(normalize=True)", "QAM16(gray=True,normalize=True)", "PAM4(gray=True,normalize=True)", "PSK4(gray=True)", "QAM4(gray=False,normalize=False)"]
     for md in hard_modems8:
@@ -229,6 +233,16 @@ def all_items():
             add("Polar(8,4)", "sc", md, "ideal", noise_var=nv)
             if md != "QAM16(gray=True,normalize=True)":
                 add("LDPC(6,3)", "minsum", md, "ideal", noise_var=nv)
+    # several code blocks in one row, including code lengths that are not a multiple of the symbol size
+    add("Hamming(7,4)", "ml", "QPSK(normalize=True)", "ideal", blocks=2)
+    add("ExtHamming(8,4)", "ml", "QPSK(normalize=True)", "flips", blocks=2)
+    add("SPC(3)", "wagner", "PSK8(gray=True)", "ideal", noise_var=1.0, blocks=3)
+    add("Hamming(7,4)", "ml", "QAM16(gray=True,normalize=True)", "ideal", blocks=4)
+    if TIER == "thorough":
+        add("Hamming(7,4)", "ml", "PSK8(gray=True)", "ideal", blocks=3)
+        add("Hamming(7,4)", "ml", "QPSK(normalize=True)", "flips", blocks=2)
+        add("SPC(5)", "wagner", "QAM16(gray=True,normalize=True)", "ideal", noise_var=1.0, blocks=2)
+        add("Repetition(6)", "ml", "QAM16(gray=True,normalize=True)", "flips", blocks=2)
     # dense constellations: one 64-QAM symbol per block (n = 6), one 256-QAM symbol per block (n = 8) in the thorough tier
     q64 = "QAM64(gray=True,normalize=True)"
     add("SPC(5)", "wagner", q64, "ideal", noise_var=1.0)
@@ -284,7 +298,7 @@ def main():
     from kaira.channels import lambda_channel, identity
     ck.encoded(channel_code.ChannelCodeModel.__init__, sequential.SequentialModel.forward, lambda_channel.LambdaChannel.forward, identity.PerfectChannel.forward)
     ck.bound("links", f"{len(items) - 1} (code, decoder, modem, channel) combinations through the real ChannelCodeModel: hard pipelines over 6 modem options with the ideal channel and with <= t flipped code bits per block (symbolic pattern, re-labelled through the library's own modem), soft pipelines (Wagner, polar SC, min-sum LDPC) over the ideal channel with noise_var on a grid, displacement below d_min/2 per axis for BPSK / QPSK")
-    ck.assume("one block per call (B = 1); all messages and all admissible error patterns / displacements per query; finite-table domain for the bit flows (exact float32), reals for the displacement items")
+    ck.assume("one row per call (B = 1) carrying one code block, or 2..4 blocks for the multi-block links; all messages and all admissible error patterns / displacements per query; finite-table domain for the bit flows (exact float32), reals for the displacement items")
     ck.run_items(__name__, "work", items)
     ck.finish(min_obligations=20)
 
